@@ -95,6 +95,29 @@ T.update({
  'C11_d': dict(change='arm64: Seal writes the tag with xor16 directly into out (16-byte store)', needs='tag size 12..15: 1..4 bytes past the result', strengthened='no'),
 })
 
+T.update({
+ 'C01_e': dict(change='sm2/internal/fiat/sm2_scalar_element.go SetBytes: n-1 rejected (> 0 became >= 0)', needs='private key n-2: d+1 = n-1 is refused, the error ignored, own signature rejected', strengthened='no'),
+ 'C02_e': dict(change='sm2/sm2.go TestPrivateKey: early return for short keys moved before the zero test', needs='all-zero key shorter than 32 bytes: signed with d = 0', strengthened='no'),
+ 'C03_e': dict(change='sm2/sm2.go VerifyHashed: final comparison through R.Bytes() with a length-32 test', needs='valid signature with r < 2^248', strengthened='no'),
+ 'C04_e': dict(change='sm3/sm3.go Sum: in-place fast path writes the digest at offset 0 of the prefix', needs='Sum(prefix) with >= 32 bytes spare capacity', strengthened='no'),
+ 'C05_e': dict(change='sm4/sm4_asm.go newCipher fallback: enc/dec key schedules exchanged', needs='CPU without the accelerated instructions (candoAsm false)', strengthened='YES: the symbolic run of the fallback dispatch flagged it but the replay never forced the fallback; the replay now sets candoAsm=false and checks the known answer'),
+ 'C06_e': dict(change='sm4/gcm_amd64.s fillCounterX16: VPADDD became VPADDW (16-bit carry lost)', needs='message > 256 bytes and counter low 16 bits >= 0xfff0', strengthened='YES (engine): VPADDW unsupported (check aborted); added'),
+ 'C07_e': dict(change='sm4/sm4_gcm_amd64.go Open: short-ciphertext guard compares with 12 (same edit as C11_b, proposed for C07)', needs='12 <= len < tagSize: panic / read in front of the buffer', strengthened='YES: the glue witness used a fixed 5-byte ciphertext; it now uses the failing length'),
+ 'C08_e': dict(change='fiat MultiSelect: shortcut when fallbackCond == 0 (window value zero)', needs='secret scalar with a zero window', strengthened='no'),
+ 'C09_e': dict(change='sm4/gcm_amd64.s copyAsm macro: compare-and-skip of the final byte store', needs='odd copy length: branch on a data byte', strengthened='YES (engine): CMPB unsupported; narrow compares added'),
+ 'C10_e': dict(change='sm2/sm2.go ZA: hash.Write(append(pubx, puby...))', needs='pubx with >= 32 bytes spare capacity: the bytes behind it are overwritten', strengthened='YES: inputs had exact capacity and only SignHashed/VerifyHashed were covered; inputs are now sub-slices with a canary behind them, ZA/CheckOnCurve/DerivePublic added, and a canary replay on the real build covers all SM2/SM3 entry points'),
+ 'C11_e': dict(change='sm4/helper_amd64.s copyAsm: 8-byte loop threshold 8 -> 1', needs='dst prefix length not a multiple of 8 with reallocation: reads/writes up to 7 bytes too far', strengthened='YES: found from the listing but no replay template for copyAsm; guard-page replay added'),
+ 'C12_e': dict(change='sm2/sm2.go GenerateKey: returns the first (rejected) candidate with the public key of a later one', needs='first candidate out of range', strengthened='no'),
+ 'C13_e': dict(change='sm2/sm2.go Verify substitutes the default id when the id is empty', needs='empty or nil id', strengthened='YES: the wrapper obligation only used 16-byte ids; id lengths 0, nil, 1, 33 added (symbolic and replay)'),
+ 'C14_e': dict(change='ScalarMixedMult_Unsafe builds its table from NewFromXY(P.x, P.y) (drops Z)', needs='P given with Z != 1', strengthened='YES: the abstract-group run could not execute the coordinate access and aborted the check; abstraction loss is now reported as such and the replay includes points with Z != 1'),
+ 'C15_e': dict(change='GetAffineX_Unsafe: infinity guard removed (nil dereference)', needs='point at infinity', strengthened='YES: symbolic run flagged the panic, replay now calls both affine conversions on every infinity representative'),
+ 'C16_e': dict(change='sm2ScalarMul: Mul64(x20, 2^64-1) rewritten as (x20-1, -x20)', needs='x20 == 0 (2^-63)', strengthened='YES (engine): unary minus unsupported in integer mode; added'),
+ 'C17_e': dict(change='ScalarMixedMult_Unsafe: NAF digit buffer at package level', needs='concurrent verifications', strengthened='no'),
+ 'C18_e': dict(change='sm2Precomputed_7_3_12 sub table 3: entries 100 and 101 swapped', needs='7_3_12 scheme', strengthened='no'),
+ 'C19_e': dict(change='sm2/sm2.go SignZa: shadowed results, bare return swallows the error', needs='failing reader through SignZa/Sign', strengthened='YES: only GenerateKey and SignHashed were under fault schedules; SignZa and Sign added'),
+ 'C20_e': dict(change='DecomposeNAF: final carry stored at out[len(out)-1] instead of out[n-1]', needs='digit buffer longer than n and a carry out of the top bit', strengthened='YES: buffers always had length n; longer buffers added (symbolic and replay)'),
+})
+
 for name, t in sorted(T.items()):
     d = os.path.join(S, name)
     if not os.path.isdir(d):
